@@ -416,7 +416,7 @@ func formMethKey(ll slip.List) string {
 		case slip.List:
 			if 1 < len(tv) {
 				if sym, ok := tv[1].(slip.Symbol); ok {
-					key = append(key, sym...)
+					key = append(key, specializerName(sym)...)
 				} else {
 					key = append(key, 't')
 				}
@@ -424,4 +424,15 @@ func formMethKey(ll slip.List) string {
 		}
 	}
 	return string(key)
+}
+
+// specializerName returns the name a parameter specializer is filed under in
+// the method table. Symbols are not case sensitive and can carry a package
+// prefix so when the symbol designates a known class the name of that class
+// is used which is also what the hierarchy of an argument is made of.
+func specializerName(sym slip.Symbol) string {
+	if c := slip.FindClass(string(sym)); c != nil {
+		return c.Name()
+	}
+	return string(sym)
 }
